@@ -45,7 +45,7 @@ def oracle_tags(line):
 def run_bdd_history(item, pid, wdir, with_model=True, profile="release"):
     name, lines, meta = item
     hp = H.write_hist(os.path.join(wdir, name + ".hist"), lines)
-    impl = H.run_impl(hp, oracle=True, profile=profile, timeout=meta.get("timeout", 120))
+    impl = H.run_impl(hp, oracle=True, profile=profile, timeout=meta.get("timeout", 8))
     res = {"name": name, "path": hp, "meta": meta, "impl_status": impl["status"], "nlines": len(impl["lines"])}
     res["oracle"] = [l for l in impl["oracle"] if oracle_tags(l) in R.TAGS[pid]]
     res["oracle_other"] = len(impl["oracle"]) - len(res["oracle"])
@@ -63,7 +63,7 @@ def run_bdd_history(item, pid, wdir, with_model=True, profile="release"):
         v = cache_variant(lines)
         if v is not None:
             vp = H.write_hist(os.path.join(wdir, name + ".var.hist"), v)
-            impl2 = H.run_impl(vp, oracle=False, profile=profile, timeout=meta.get("timeout", 120))
+            impl2 = H.run_impl(vp, oracle=False, profile=profile, timeout=meta.get("timeout", 8))
             a, b = impl["lines"], impl2["lines"]
             if any(l.startswith("panic") for l in a + b):
                 n = min(len(a), len(b)) - 1          # storage may fill earlier with a smaller cache: compare the common prefix
@@ -94,14 +94,14 @@ def cache_variant(lines):
     return ["cfg %s %s %d" % (t[1], t[2], nb)] + list(lines[1:])
 
 
-def shrink_bdd(lines, pid, kind, wdir, tag):
+def shrink_bdd(lines, pid, kind, wdir, tag, budget=150):
     """minimise a failing history; kind = 'oracle' (an ORACLE line of this property appears) or 'diff'"""
     counter = [0]
 
     def fails(cand):
         counter[0] += 1
         hp = H.write_hist(os.path.join(wdir, "shrink-%s-%d.hist" % (tag, counter[0] % 4)), cand)
-        impl = H.run_impl(hp, oracle=True, timeout=60)
+        impl = H.run_impl(hp, oracle=True, timeout=2)
         if kind == "oracle":
             if any(oracle_tags(l) in R.TAGS[pid] for l in impl["oracle"]):
                 return True
@@ -109,19 +109,19 @@ def shrink_bdd(lines, pid, kind, wdir, tag):
                 v = cache_variant(cand)
                 if v is not None:
                     vp = H.write_hist(os.path.join(wdir, "shrink-%s-v.hist" % tag), v)
-                    impl2 = H.run_impl(vp, oracle=False, timeout=60)
+                    impl2 = H.run_impl(vp, oracle=False, timeout=4)
                     a, b = impl["lines"], impl2["lines"]
                     if any(l.startswith("panic") for l in a + b):
                         n = min(len(a), len(b)) - 1
                         a, b = a[:n], b[:n]
                     return not H.compare_traces(cand, a, b, alloc=False)[1]
             return False
-        model = H.run_model(hp, timeout=120)
+        model = H.run_model(hp, timeout=30)
         _, canon, _ = H.compare_traces(cand, impl["lines"], model["lines"], alloc=(pid in R.ALLOC))
         return not canon
 
     try:
-        small = H.shrink(lines, fails, budget=120 if len(lines) > 1500 else 250)
+        small = H.shrink(lines, fails, budget=budget, max_seconds=45 if budget > 50 else 12)
         if fails(small):
             return small
     except Exception:
@@ -151,7 +151,7 @@ def run_property(pid, tier, seed, spec):
     items += list(R.structured(pid, tier, seed))
     items += list(R.bdd_histories(pid, tier, seed))
     t0 = time.time()
-    results = H.pmap(lambda it: run_bdd_history(it, pid, wdir), items)
+    results, items = H.pmap_until(lambda it: run_bdd_history(it, pid, wdir), items, lambda r: bool(r["oracle"]) or r["impl_status"] != "ok")
     cov = summarise(pid, items, results)
     failures, diffs = [], []
     fail_res = [r for r in results if r["oracle"]]
@@ -160,19 +160,20 @@ def run_property(pid, tier, seed, spec):
     if diff_res and not fail_res:
         extra = list(R.bdd_histories(pid, "thorough", seed + 7919))[:1500]
         extra += list(R.structured(pid, "quick", seed + 13))
-        more = H.pmap(lambda it: run_bdd_history(it, pid, wdir, with_model=False), extra)
+        extra = [("wide-" + n, ls, m) for (n, ls, m) in extra]
+        more, _ = H.pmap_until(lambda it: run_bdd_history(it, pid, wdir, with_model=False), extra, lambda r: bool(r["oracle"]), enough=3)
         fail_res = [r for r in more if r["oracle"]]
         cov["widened_search_histories"] = len(extra)
     for k, r in enumerate(sorted(fail_res, key=lambda r: r["nlines"])[:3]):
         lines = [l.rstrip("\n") for l in open(r["path"])]
-        small = shrink_bdd(lines, pid, "oracle", wdir, "o%d" % k)
+        small = shrink_bdd(lines, pid, "oracle", wdir, "o%d" % k, budget=150 if k == 0 else 25)
         rp = H.write_hist(os.path.join(H.WORK, "replays", "%s-%d.hist" % (pid, k)), small)
         impl = H.run_impl(rp, oracle=True, timeout=60)
         msgs = [l for l in impl["oracle"] if oracle_tags(l) in R.TAGS[pid]] or r["oracle"]
         failures.append({"replay": rp, "what": msgs[0], "history": r["name"], "lines": len(small)})
     for k, r in enumerate(sorted(diff_res, key=lambda r: r["nlines"])[:3]):
         lines = [l.rstrip("\n") for l in open(r["path"])]
-        small = shrink_bdd(lines, pid, "diff", wdir, "d%d" % k)
+        small = shrink_bdd(lines, pid, "diff", wdir, "d%d" % k, budget=100 if k == 0 else 20)
         rp = H.write_hist(os.path.join(H.WORK, "replays", "%s-diff-%d.hist" % (pid, k)), small)
         d = r["diff"]
         diffs.append({"replay": rp, "history": r["name"],
